@@ -296,9 +296,13 @@ func c09Build(driver string, threads int) [][]c09Call {
 	case "H18-less-processor":
 		lessFiles := Files{"h18_page.vuego": `<style type="text/css+less">@c: red; .a { color: @c; .b { top: 0; } }</style><p class="a">{{ canary }}</p>`}
 		t := vuego.NewFS(lessFiles.FS(), vuego.WithLessProcessor())
+		strEngine := vuego.New(vuego.WithLessProcessor())
 		for i := range out {
 			i := i
-			out[i] = []c09Call{mk("less", func(b *bytes.Buffer) error { return t.Load("h18_page.vuego").Fill(tdata(i)).Render(bg, b) })}
+			// (also on an engine for string templates, whose LESS processor has no file system)
+			tpl := fmt.Sprintf(`<style type="text/css+less">@w: %dpx; .c%d { width: @w; .in { height: (@w * 2); } }</style><p class="c%d">{{ canary }}</p>`, 10+i, i, i)
+			out[i] = []c09Call{mk("less", func(b *bytes.Buffer) error { return t.Load("h18_page.vuego").Fill(tdata(i)).Render(bg, b) }),
+				mk("str", func(b *bytes.Buffer) error { return strEngine.New().Fill(tdata(i)).RenderString(bg, b, tpl) })}
 		}
 	case "H20-shared-read-only-data-of-other-map-types":
 		// every request hands over the same read-only data: a named map type (type Props
@@ -748,7 +752,7 @@ func init() {
 		WorkerEnv: func(runDir string) []string {
 			return []string{"GORACE=log_path=" + runDir + "/race halt_on_error=0 exitcode=0 history_size=2", "VERIF_RACE_LOG=" + runDir + "/race"}
 		},
-		Rule: "13 drivers (cold cache on the same file; shared caller map through Vue.Render and Load().Fill; v-once with a warm cache; previously unseen paths and expressions, also with the global path cache two entries below its limit; include+slots+layout+filters+shorthand; page and component edited underneath by an editor thread; RenderString on New(); registered functions and failing renders; components with v-once and wrapper components; one page with different data per thread; a front-matter page that sets per-request variables with top-level <template :var> through Vue.Render and through Load().Fill().Render), each with 2 (thorough: also 3) real goroutines on one shared engine. " +
+		Rule: fmt.Sprint(len(c09Drivers)) + " drivers (among them: cold cache on the same file; shared caller map through Vue.Render and Load().Fill; v-once with a warm cache; previously unseen paths and expressions, also with the global path cache two entries below its limit; include+slots+layout+filters+shorthand; page and component edited underneath by an editor thread; RenderString on New(); registered functions and failing renders; components with v-once and wrapper components; one page with different data per thread; a front-matter page that sets per-request variables with top-level <template :var> through Vue.Render and through Load().Fill().Render; inline LESS styles on an engine with files and on an engine for string templates, whose LESS processor has no file system), each with 2 (thorough: also 3) real goroutines on one shared engine. " +
 			"Every schedule with at most b preemptions is executed under a controlled scheduler that owns every Lock/RLock/Unlock/Pool/Once operation of the vuego module (and file-system opens in the edit driver); per schedule: every call's bytes and error equal one of its solo results, runtime.RaceErrors() did not increase (race detector in the loop, hand-offs invisible to it), no deadlock, no panic. One recorded schedule per driver is replayed and must reproduce exactly. A free-running -race pass of the same bodies complements it. states = schedules executed, transitions = scheduling points; non-trivial = all",
 		Bounds:      map[string]string{"quick": "2 threads, preemption bound 2", "thorough": "2 threads bound 3; 3 threads bound 2"},
 		Assumptions: []string{"sequentially consistent interleavings at synchronisation operations; unsynchronised accesses are caught by the race detector on each explored schedule instead", "cmd/vinstr rewrites every use of package sync in the vuego module (5 files today); other blocking primitives (channels, atomics) are not used by the module"},
